@@ -38,7 +38,7 @@ func genSchedAdd(t *rapid.T, name string, pred map[string]string, names []string
 		if rapid.IntRange(0, 9).Draw(t, "svia") != 0 {
 			o.Via = ""
 		}
-		o.Port = rapid.SampledFrom([]string{"victim", "victim", "fresh"}).Draw(t, "sport")
+		o.Port, o.Fd = rapid.SampledFrom([]string{"victim", "victim", "fresh"}).Draw(t, "sport"), ""
 	}
 	if o.Kind == "ext" {
 		o.Endpoint = genEndpoint(t)
